@@ -462,7 +462,8 @@ impl<'a> StrftimeItems<'a> {
         ch: Option<char>,
     ) -> (&'b str, Item<'b>) {
         if !self.lenient {
-            return (&original[*error_len..], Item::Error);
+            // Consume the rest of the input: iteration ends after reporting the error.
+            return (&original[original.len()..], Item::Error);
         }
 
         if let Some(c) = ch {
